@@ -1,0 +1,18 @@
+//go:build verif
+// +build verif
+
+// Add-only verification shim for property C18, second part: PREPARE with a keyspace (protocol 5),
+// which VerifC18Req does not carry.
+package gocql
+
+// BuildPrepare runs writePrepareFrame.buildFrame with the given statement and keyspace on this framer.
+func (v *VerifC18Framer) BuildPrepare(stream int, statement, keyspace string) (out []byte, err error, panicked interface{}) {
+	defer func() {
+		if r := recover(); r != nil {
+			panicked = r
+		}
+	}()
+	err = (&writePrepareFrame{statement: statement, keyspace: keyspace}).buildFrame(v.f, stream)
+	out = verifC18Copy(v.f.buf)
+	return
+}
